@@ -439,10 +439,12 @@ func (s *Server) applyFault(c *Call, f *Fault) (runtime.Object, error) {
 	switch f.Mode {
 	case "crash-before":
 		c.After = c.Before // nothing was applied
+		c.Err = "the process died before this call (injected)"
 		panic(CrashSentinel{At: c.String()})
 	case "crash-after":
 		s.do(c)
 		c.After = s.store[c.Res][key]
+		c.Err = "the process died before it saw the reply (injected)"
 		panic(CrashSentinel{At: c.String()})
 	}
 	switch f.Kind {
